@@ -210,4 +210,149 @@ Proof.
       apply (holder_enabled c s j w' Hw' Hh). apply Wb. eapply nth_opt_lt; eauto.
 Qed.
 
+(* ---- C10: thread bound ---- *)
+Theorem spawn_bound c src p s : reachable f c src p s -> length (ws s) <= Nat.max 1 (Nat.min (k_workers c) 256).
+Proof. intros Hr. exact (i1_bound c s (inv_I1 f c src p s Hr)). Qed.
+
+(* ---- C10: Drop never blocks ---- *)
+Definition drop_rank (p : cpc) : nat :=
+  match p with
+  | CShut false => 6 | CCloseLock false => 5 | CCloseStore false => 4 | CCloseNotify false => 3
+  | CCloseUnlock false => 2 | CDropRx => 1 | _ => 0
+  end.
+Definition drop_pc (p : cpc) : bool :=
+  match p with
+  | CShut false | CCloseLock false | CCloseStore false | CCloseNotify false | CCloseUnlock false | CDropRx => true
+  | _ => false
+  end.
+Definition hold_rank (w : wpc R) : nat := match w with WPop => 3 | WChk => 2 | WWait => 1 | _ => 0 end.
+
+(* Every step of Drop (for every configuration, pinned or repaired) is enabled and leads to the next
+   program point of the fixed sequence  shutdown.store, [lock], closed.store, notify_all, [unlock],
+   drop(rx)  — except the acquisition of the queue mutex in the repaired close(), which waits for a
+   worker that is inside the critical section of steal(); that worker is enabled. *)
+Theorem drop_nonblocking c src p s :
+  reachable f c src p s -> drop_pc (pc s) = true ->
+  (exists s', co_step c s 0 = Some s' /\ drop_rank (pc s') < drop_rank (pc s) /\
+              (drop_pc (pc s') = true \/ pc s' = CDone)) \/
+  (pc s = CCloseLock false /\
+   exists i w, q_lock s = Some (Wk i) /\ nth_opt (ws s) i = Some w /\ holds_lock w = true /\
+               wk_step f c s i <> None).
+Proof.
+  intros Hr Hd. pose proof (inv_I1 f c src p s Hr) as H1.
+  destruct (pc s) eqn:Hpc; try discriminate; try (destruct fin; try discriminate).
+  all: unfold co_step; rewrite Hpc.
+  all: try solve [ left; eexists; split; [reflexivity|]; msimpl; destruct (fx_close c); cbn; auto ].
+  all: try solve [ left; destruct (fx_close c); eexists; (split; [reflexivity|]); msimpl; cbn; auto ].
+  - (* CCloseLock *)
+    destruct (lock_free s) eqn:El.
+    + left; eexists; split; [reflexivity|]; msimpl; cbn; auto.
+    + right. split; [reflexivity|]. unfold lock_free in El.
+      destruct (q_lock s) as [[k|j]|] eqn:Eq; try discriminate.
+      * destruct (i1_lock_c c s H1 _ Eq) as (_ & _ & X). rewrite Hpc in X. discriminate.
+      * destruct (i1_lock_o c s H1 _ Eq) as (w & Hw & Hh). exists j, w. repeat split; auto.
+        eapply holder_enabled; eauto.
+Qed.
+
+(* the worker that holds the mutex releases it within three of its own steps *)
+Theorem holder_releases c src p s i w s' :
+  reachable f c src p s -> nth_opt (ws s) i = Some w -> holds_lock w = true ->
+  wk_step f c s i = Some s' ->
+  q_lock s' = None \/ exists w', nth_opt (ws s') i = Some w' /\ holds_lock w' = true /\ hold_rank w' < hold_rank w.
+Proof.
+  intros Hr Hw Hh Hst. unfold wk_step in Hst. rewrite Hw in Hst.
+  destruct w; try discriminate Hh;
+    repeat match type of Hst with
+           | context [match ?x with _ => _ end] => destruct x eqn:?
+           | context [if ?b then _ else _] => destruct b eqn:?
+           end; try discriminate; apply Some_inj in Hst; subst; msimpl; auto.
+  all: right; eexists; split; [eapply nth_opt_upd_eq; eauto|split; [reflexivity|cbn; lia]].
+Qed.
+
+(* a worker's step never moves the coordinator *)
+Lemma wk_step_pc c s i s' : wk_step f c s i = Some s' -> pc s' = pc s.
+Proof. intros Hst. wk_cases Hst; reflexivity. Qed.
+
+(* ---- C10: after Drop every worker terminates ---- *)
+Theorem drop_releases c src p s :
+  Fx c -> reachable f c src p s -> pc s = CDone -> stuck f c s = true -> all_exited s = true.
+Proof.
+  intros Hfx Hr Hd St.
+  unfold stuck in St. apply andb_true_iff in St. destruct St as [_ S2]. apply negb_true_iff in S2.
+  pose proof (any_worker_enabled_false c s _ S2) as Wb.
+  pose proof (inv_I1 f c src p s Hr) as H1. pose proof (inv_I3 f c src p s Hfx Hr) as H3.
+  assert (Hch : co_holds (pc s) = false) by (rewrite Hd; reflexivity).
+  pose proof (all_workers_blocked c src p s Hr Hch Wb) as AW.
+  unfold all_exited. apply forallb_forall. intros w Hw.
+  destruct (AW w Hw) as [->| ->]; [|reflexivity].
+  exfalso. assert (Hc : q_closed s = true) by (apply (i1_stored c s H1); rewrite Hd; reflexivity).
+  destruct (i3_nosleep c s H3 Hc) as [[fin X]|X]; [congruence|].
+  specialize (X _ Hw). discriminate.
+Qed.
+
+(* ---- C09: success is only reported for complete data ---- *)
+Definition fin_chain (p : cpc) : bool :=
+  match p with CShut true | CCloseLock true | CCloseStore true | CCloseNotify true | CCloseUnlock true => true | _ => false end.
+
+Lemma inv_fin_chain c src p s : Fx c -> reachable f c src p s -> fin_chain (pc s) = true -> nd s <= nr s.
+Proof.
+  intros Hfx Hr. induction Hr as [|s t s' Hr IH Hst]; [discriminate|].
+  pose proof (inv_I3 f c src p s Hfx Hr) as H3. pose proof (i3_pfin c s H3) as PF.
+  pose proof (inv_ctl f c src p s Hfx Hr) as OK.
+  revert IH. step_split t Hst; rw_pc; intros IH X; try discriminate; auto.
+  all: unfold ret_eff, disp_eff, src_eff, finish_eff, flush_eff, with_out, goto, creturn, freturn, dk_is_finish in *;
+       cbn [e_pc] in *.
+  all: repeat match goal with
+              | g : gk |- _ => destruct g
+              | d : dk |- _ => destruct d
+              | r : src_res |- _ => destruct r
+              | H : context [if ?b then _ else _] |- _ => destruct b eqn:?
+              | H : context [match ph ?s with _ => _ end] |- _ => destruct (ph s) eqn:?
+              end; cbn [e_pc fin_chain] in *; try discriminate; auto.
+  all: split_andb; try lia.
+  all: try solve [ msimpl_in Heqb1; lia ].
+  all: try solve [ exfalso; destruct (ph s); cbn in OK; discriminate ].
+  all: try solve [ msimpl_in Heqb0; lia ].
+  all: try solve [ destruct fin; try discriminate; auto ].
+  all: try solve [ destruct fin; destruct (fx_close c); try discriminate; auto ].
+Qed.
+
+Lemma map_inl_all (o : list R) a n :
+  map inl o = map f (seq a n) -> forall q, a <= q < a + n -> exists r, f q = inl r.
+Proof.
+  revert o a. induction n as [|k IH]; intros o a H q Hq; [lia|].
+  destruct o as [|r o]; [discriminate|]. simpl in H. inversion H.
+  destruct (Nat.eq_dec q a) as [->|Hne]; [eauto|]. eapply IH; eauto. lia.
+Qed.
+
+(* Whenever a call returns the success-end value (reader: Ok(None) = clean end of data; writer:
+   finish() = Ok(inner)), every dispatched unit has been handed out, in order, and all of them were
+   successes of the unit function: success is never reported with part of the data missing, and
+   never when a unit failed. *)
+Theorem mt_complete c src p s t s' :
+  Fx c -> reachable f c src p s -> step f c s t = Some s' -> results s' = results s ++ [RNone] ->
+  nr s' = nd s' /\ map inl (out s') = map f (seq 0 (nd s')) /\
+  forall q, q < nd s' -> exists r, f q = inl r.
+Proof.
+  intros Hfx Hr Hst Hres.
+  assert (Hr' : reachable f c src p s') by (econstructor; eauto).
+  destruct (mt_safety f c src p s' Hr') as [O NR].
+  assert (Hge : nd s' <= nr s').
+  { pose proof (inv_I3 f c src p s Hfx Hr) as H3. pose proof (i3_pfin c s H3) as PF.
+    pose proof (inv_fin_chain c src p s Hfx Hr) as FC. pose proof (inv_ctl f c src p s Hfx Hr) as OK.
+    clear O NR Hr'.
+    revert Hres. step_split t Hst; rw_pc; intros Hres;
+      try (apply (f_equal (@length _)) in Hres; rewrite ?app_length in Hres; simpl in Hres; lia).
+    all: try solve [ apply FC; reflexivity ].
+    all: apply app_inv_head in Hres;
+         unfold ret_eff, disp_eff, src_eff, finish_eff, flush_eff, with_out, goto, creturn, freturn, dk_is_finish in Hres;
+         repeat match type of Hres with
+                | context [match ?x with _ => _ end] => destruct x eqn:?
+                | context [if ?b then _ else _] => destruct b eqn:?
+                end; cbn [e_res] in Hres; try discriminate; auto.
+    all: try solve [ exfalso; rw_eqs; destruct (ph s); cbn in OK; discriminate ]. }
+  assert (E : nr s' = nd s') by lia. split; [assumption|]. rewrite <- E. split; [assumption|].
+  intros q Hq. eapply map_inl_all; [exact O|lia].
+Qed.
+
 End P.
